@@ -200,11 +200,8 @@ def gen(repo):
     newtypes.update(newtype_map(peer_id_src))
     enums = {}
     lay = ["(* GENERATED by /verif/translator/facts.py - do not edit. *)",
-           "From Coq Require Import NArith ZArith List String.", "Import ListNotations.", "Open Scope string_scope.", "",
-           "(* field types of #[repr(C, packed)] wire structs: big-endian integers (zerocopy network_endian),",
-           "   byte arrays, #[repr(i32)] enums whose discriminants are written `N_i32.to_be()` (= value N",
-           "   on the wire), and the address-family parameter I *)",
-           "Inductive fty := FI32 | FI64 | FU16 | FU32 | FBytes (n : nat) | FEnum (discriminants : list (string * Z)) | FIp.", ""]
+           "From Coq Require Import NArith ZArith List String.", "From Aquatic Require Import Layout.",
+           "Import ListNotations.", "Open Scope string_scope.", ""]
     for en in ("AnnounceEvent", "AnnounceActionPlaceholder"):
         vs = repr_i32_enum(udp_req, en, "udp_protocol/request.rs")
         nm = "enum_" + en
